@@ -11,10 +11,11 @@ from concurrent.futures import ProcessPoolExecutor
 V = os.path.dirname(os.path.dirname(os.path.abspath(__file__)))
 sys.path.insert(0, V)
 from rsv import build, registry
-from rsv.check import run_rules
+from rsv.check import run_rules, load_known
 from rsv.ir import Facts
 
 FC = os.path.join(tempfile.gettempdir(), 'rsv-corpus-facts')
+KNOWN = {(k['property'], k['key']) for k in load_known().get('open', [])}   # suppressed by exact key, as bin/check does
 
 
 def member_cmd():
@@ -92,7 +93,8 @@ def evaluate(args):
         except Exception as e:
             out.setdefault('_infra', []).append('%s: %s: %s' % (prop, type(e).__name__, str(e)[-200:]))
             continue
-        keys = [f.key for r in res for f in r.findings if (not rules or f.rule in rules) and not (f.rule.startswith('W-') or '(W)' in f.rule)]   # witnesses need the rmeta: not evaluated here
+        keys = [f.key for r in res for f in r.findings if (not rules or f.rule in rules) and not (f.rule.startswith('W-') or '(W)' in f.rule)
+                and (prop, f.key) not in KNOWN]   # witnesses need the rmeta: not evaluated here
         if keys:
             out[prop] = keys
     return out
